@@ -492,8 +492,10 @@ where
             Ok(())
         };
         let result = f(self);
-        let _ = self.read_byte();
-        result
+        let tail = self.read_byte();
+        result?;
+        tail?;
+        Ok(())
     }
 
     /// Perform an application-specific command.
